@@ -342,8 +342,15 @@ def c02(X, src, mode="exec"):
             v["feature"] = "tab-consistency"
         elif str(ref.msg).startswith("f-string") and tk == "ok" and any(t.type == X.tokenize.Token.FSTRING_START for t in toks):
             v["feature"] = "fstring-diagnostic"
+        elif _lone_cr_re.search(src) and run_parse(X, _lone_cr_re.sub("\n", src), mode)[0] != "ok":
+            # a lone CR is a line end for CPython and not for parse_string (KF-C01-2): with "\n" in its place both reject
+            v["feature"] = "lone-cr-newline"
         return v
     return None
+
+
+import re as _re_cr
+_lone_cr_re = _re_cr.compile(r"\r(?!\n)")
 
 
 ALLOWED_C03 = ("ok", "SyntaxError", "IndentationError", "TokenError")
@@ -589,9 +596,10 @@ def tiling(T, toks, lines, vin=_plain_in):
     for i, t in enumerate(toks):
         st, en = tuple(t.start), tuple(t.end)
         virtual = t.type in (T.DEDENT, T.ENDMARKER) or (t.type == T.NEWLINE and len(t.string) == 0)
-        if t.type == T.DEDENT and i + 1 < len(toks) and toks[i + 1].type not in (T.DEDENT, T.ENDMARKER) and tuple(toks[i + 1].start) != st:
+        if t.type == T.DEDENT and i + 1 < len(toks) and toks[i + 1].type not in (T.DEDENT, T.ENDMARKER) and tuple(toks[i + 1].start) < st:
+            # ordering only (the property asks for non-decreasing positions): a DEDENT on a bare backslash line precedes the token of a later line
             return {"kind": "overlap-or-disorder", "observed": f"DEDENT #{i} at {st} but the next token starts at {tuple(toks[i + 1].start)}",
-                    "expected": "a DEDENT sits at the start of the token that follows it"}
+                    "expected": "a DEDENT is not placed behind the token that follows it"}
         if not virtual:
             if st > en:
                 return {"kind": "start-after-end", "observed": f"token {i} {t.type.name} {st}-{en}", "expected": "start <= end"}
